@@ -286,13 +286,16 @@ def clauses(tier, seed):
 
 
 def _pyvc_clauses():
-  from contracts import fourier_contracts, layout_contracts
-  return [c for c in fourier_contracts.clauses() if 'conjugate' in c.name] + [c for c in layout_contracts.clauses() if 'same degrees of freedom' in c.name]
+  from contracts import fourier_contracts, grid_contracts, layout_contracts, recurrence_contracts
+  # Laplacian / inverse / clipping are proved for every padding by the grid contracts (their results on resolved columns do not mention the padding);
+  # the latitude derivatives are compared between the padded and the unpadded layout directly
+  return ([c for c in fourier_contracts.clauses() if 'conjugate' in c.name] + [c for c in layout_contracts.clauses() if 'same degrees of freedom' in c.name]
+          + recurrence_contracts.clauses('C09') + [c for c in grid_contracts.clauses() if not c.name.startswith('canary')])
 
 
 MANIFEST = {
     'engine': 'pyvc+jxa',
-    'technique': 'contract-based deductive: the longitude derivatives of the two coefficient layouts are proved conjugate under the re-indexing R for all wavenumber counts (pyvc, from the real source); intertwining matrix identities on complete bases; polynomial degree proved on the jaxpr + unisolvent degree-3 lattice for nonlinear tendencies; options enumerated',
+    'technique': 'contract-based deductive: the longitude derivatives of the two coefficient layouts are proved conjugate under the re-indexing R for all wavenumber counts, the latitude-derivative recurrences agree between padded and unpadded layouts on every resolved column, Laplacian / inverse / clipping are independent of the padding (pyvc, from the real source, all sizes); intertwining matrix identities on complete bases; polynomial degree proved on the jaxpr + unisolvent degree-3 lattice for nonlinear tendencies; options enumerated',
     'text': ('other: complete over fields/states at each configuration (linearity / degree proved statically, then complete bases / unisolvent lattice); '
              'bounded over grids and Fast option combinations; trajectories sampled. The symbolic-size index clauses (bijection R, mask conjugacy for all sizes) are covered at enumerated sizes only.'),
     'note': 'trusted: A1/A2, jxa degree rules, the lattice unisolvence theorem for total-degree polynomials.',
